@@ -38,6 +38,16 @@ prop("C02", "K", "model_checking",
      technique="Kani/CBMC bounded model checking of InitExpr::to_wasmencoder_type and the DataType conversions against an independent byte-level reference encoder",
      outside="InitExpr::eval (decoder side, runs through wasmparser's operator reader), the name-section re-emission and the per-section emission loops of encode_internal; the struct arm of encode_type (CBMC out of memory, see harness/child_module.rs); multi-instruction (extended-const) expressions beyond ref.i31")
 
+prop("C28", "K", "model_checking",
+     text="Bounded model checking of the real CustomSections collection: from an arbitrary collection of up to 3 sections (symbolic names incl. duplicates, symbolic contents) one edit with arbitrary arguments (add, delete of any u32 id, write through get_section_data_mut of any id, get_id of any name) leaves exactly the list a reference Vec edited the same way would hold; one inductive step covers edit sequences of any length.",
+     technique="Kani/CBMC bounded model checking (inductive step) of CustomSections against a reference list",
+     outside="the parse-side filter in parse_internal (name section dropped, producers kept) and the 6-line emission loop at the end of encode_internal, both inline around wasmparser/wasm-encoder calls; sections longer than 2 bytes / more than 3 sections")
+
+prop("C24", "K", "model_checking",
+     text="Bounded model checking of every Opcode/MacroOpcode default method (197 helpers) on a light Inject sink: for all immediates (full-width integers, every f32/f64 bit pattern, all MemArg fields, block and heap types) the helper appends exactly one operator, namely the wasmparser variant its NAME denotes, with the immediates bit-for-bit (two's-complement reinterpretation for u32_const/u64_const). The expected variant is derived from the helper name and wasmparser's field names, never from the helper body.",
+     technique="Kani/CBMC bounded model checking of all opcode helpers against a name-derived expected operator",
+     outside="byte emission of the injected operator (wasm-encoder, via RoundtripReencoder::instruction); the injection bookkeeping of the real Inject implementors (C15/C22); the hand-reviewed name-normalisation table in vlib/genopcode.py is trusted")
+
 
 def generated_harness_files(pid, tier, seed):
     out = {}
@@ -45,4 +55,8 @@ def generated_harness_files(pid, tier, seed):
         from . import genopmap
         src, _meta = genopmap.generate(pid, tier, seed)
         out["kopmap_gen.rs"] = src
+    if pid in ("C24", "C12"):
+        from . import genopcode
+        src, _names = genopcode.generate()
+        out["kopcode_gen.rs"] = src
     return out
